@@ -75,7 +75,7 @@ def check(ctx):
         raise core.ToolError("no chains emitted by MC_Redaction")
     cases = []
     for i, c in enumerate(chains):
-        variants = [0, 1 + (i + ctx.seed) % 4] if ctx.quick else [0, 1, 2, 3, 4]
+        variants = [0, 1 + (i + ctx.seed) % 4, 100 + (i + ctx.seed) % 5] if ctx.quick else [0, 1, 2, 3, 4, 100, 101, 102, 103, 104]
         cases.append({"index": i, "chain": c["chain"], "steps": c["steps"], "variants": variants})
     env = None
     if ctx.replay:
@@ -98,9 +98,13 @@ def check(ctx):
     vis_found, vis_missing = Counter(), Counter()
     flow_notes = 0
     ni_notes = 0
+    dummy_skipped = 0
     types_rendered = Counter()
     for r in rows:
         case = by_index[r["index"]]
+        if (r["error"] or r["control_error"]) and r["variant"] >= 100:
+            dummy_skipped += 1          # a conversion that refuses the dummy sentinel (e.g. commit): nothing to render
+            continue
         if r["error"] or r["control_error"]:
             err = r["error"] or r["control_error"]
             raise core.ToolError(f"chain {' -> '.join(r['chain'])} could not be executed on the real types with valid values: "
@@ -177,11 +181,13 @@ def check(ctx):
     ctx.cov["visible_fields_missing"] = len(vis_missing)
     ctx.cov["flow_model_mismatch_notes"] = flow_notes
     ctx.cov["noninterference_only_notes"] = ni_notes
+    ctx.cov["dummy_statement_runs_refused_by_a_conversion"] = dummy_skipped
     ctx.cov["rule"] = (f"every maximal conversion chain of the Redaction model up to length {rlen} (TLC, exhaustive) executed on the "
                        "real types; evaluations = (chain, value class) runs, each rendering every in-scope object in 4 Debug "
                        "formats and searching every catalogued encoding of the 7 sensitive sources (value classes: random, "
                        "repeated bytes, small padded integers, distinctive decimals, field / integer edges; quick: random + one "
-                       "seeded class per chain, thorough: all five); distinct_nontrivial = distinct chains along which at least "
+                       "seeded class per chain, thorough: all five; each also on a statement carrying the dummy sentinel - zero block hash "
+                       "and outputs, is_not_dummy = false - because what Debug prints must not depend on the flag); distinct_nontrivial = distinct chains along which at least "
                        "one rendered object verifiably (read back through its pub fields / accessors) held a sensitive value")
     for c in cases[:: max(1, len(cases) // 4)][:4]:
         ctx.add_sample({"kind": "conversion chain executed on the real types, every in-scope object rendered and searched",
